@@ -39,6 +39,9 @@ def run(prog, R, tier="quick", only_rule=None):
     if tier == "thorough" or True:
         c20f(prog, R)
     c20g(prog, R)
+    # a blob file that still holds live bytes must never be judged dead (it would be marked deleted and unlinked)
+    from rules.props import c09
+    c09.dead_rule_shared(prog, R, "C20.h")
 
 
 def c20a(prog, R):
